@@ -6,9 +6,11 @@ open RedunModel RedunModel.FileSys RedunModel.ExtCache
 /- One request per line, state threaded through.
    (init (<path>*))                                        universe, resets filesystem, cache and counter -> ok
    (xwrite <path> b<hex> t) (xremove <path>) (xtouch <path> t) (xtrunc <path> t)   external mutations     -> ok
-   (run t ((<path> b<hex>)*) (<val>|P ...))                one scheduler.run of the task that writes the
+   (run t full|shallow ((<path> b<hex>)*) (<val>|P ...))   one scheduler.run of the task that writes the
                                                            files at mtime t and returns the leaves
                                                            -> (exec <H>|P ...) | (replay <H>|P ...)
+   (chain t full|shallow (writes) (outs))                  one scheduler.run of consume(task(...))
+                                                           -> (exec)|(replay) (cexec|creplay i<obs>*)
    (fs)                                                    -> ((<path> N) | (<path> b<hex> i<mtime>) ...) over the universe -/
 
 def pWrite : Sexp → Option (Path × Bytes)
@@ -29,41 +31,65 @@ def rFs (U : List Path) (fs : FS) : String :=
     | none => s!"({rPath p} N)"
     | some n => s!"({rPath p} {atomOfBytes n.bytes} {atomOfInt n.mtime})") ++ ")"
 
-def stepLine (st : List Path × St) (line : String) : (List Path × St) × String :=
+def pVariant : Sexp → Option Bool
+  | .atom "full" => some false
+  | .atom "shallow" => some true
+  | _ => none
+
+def rInts (l : List Int) : String := String.join (l.map fun z => " " ++ atomOfInt z)
+
+def stepLine (st : List Path × CSt) (line : String) : (List Path × CSt) × String :=
   let U := st.1
-  let s := st.2
+  let c := st.2
+  let s := c.base
+  let setFs (f : FS) : List Path × CSt := (U, { c with base := { s with fs := f } })
   match Sexp.parseLine line with
   | some [.list [.atom "init", .list ps]] =>
     match ps.mapM pPath with
-    | some U => ((U, ⟨FS.empty, none, 0⟩), "ok")
+    | some U => ((U, ⟨⟨FS.empty, none, [], 0⟩, [], 0⟩), "ok")
     | none => (st, "bad-value")
   | some [.list [.atom "fs"]] => (st, rFs U s.fs)
   | some [.list [.atom "xwrite", p, b, t]] =>
     match pPath p, pBytes b, pInt t with
-    | some p, some b, some t => ((U, { s with fs := s.fs.write p b t }), "ok")
+    | some p, some b, some t => (setFs (s.fs.write p b t), "ok")
     | _, _, _ => (st, "bad-value")
   | some [.list [.atom "xremove", p]] =>
     match pPath p with
-    | some p => ((U, { s with fs := s.fs.remove p }), "ok")
+    | some p => (setFs (s.fs.remove p), "ok")
     | none => (st, "bad-value")
   | some [.list [.atom "xtouch", p, t]] =>
     match pPath p, pInt t with
-    | some p, some t => ((U, { s with fs := FS.utimeIfExists s.fs p t }), "ok")
+    | some p, some t => (setFs (FS.utimeIfExists s.fs p t), "ok")
     | _, _ => (st, "bad-value")
   | some [.list [.atom "xtrunc", p, t]] =>
     match pPath p, pInt t with
-    | some p, some t => ((U, { s with fs := FS.truncIfExists s.fs p t }), "ok")
+    | some p, some t => (setFs (FS.truncIfExists s.fs p t), "ok")
     | _, _ => (st, "bad-value")
-  | some [.list [.atom "run", t, .list ws, .list os]] =>
-    match pInt t, ws.mapM pWrite, os.mapM pOut with
-    | some t, some ws, some os =>
-      let r := run U (writerBody ws os t) s
+  | some [.list [.atom "run", t, v, .list ws, .list os]] =>
+    match pInt t, pVariant v, ws.mapM pWrite, os.mapM pOut with
+    | some t, some sh, some ws, some os =>
+      let r := run U sh (writerBody ws os t) s
       let txt := match r.2 with
-        | .replay ls => "(replay " ++ " ".intercalate (ls.map rLeaf) ++ ")"
-        | .exec ls => "(exec " ++ " ".intercalate (ls.map rLeaf) ++ ")"
+        | .replay ls => "(replay" ++ String.join (ls.map fun l => " " ++ rLeaf l) ++ ")"
+        | .exec ls => "(exec" ++ String.join (ls.map fun l => " " ++ rLeaf l) ++ ")"
         | .failed e => nomatch e
-      ((U, r.1), txt)
-    | _, _, _ => (st, "bad-value")
+      ((U, { c with base := r.1 }), txt)
+    | _, _, _, _ => (st, "bad-value")
+  | some [.list [.atom "chain", t, v, .list ws, .list os]] =>
+    match pInt t, pVariant v, ws.mapM pWrite, os.mapM pOut with
+    | some t, some sh, some ws, some os =>
+      let r := runChain U sh (writerBody ws os t) c
+      let up := match r.2.1 with
+        | .replay _ => "(replay)"
+        | .exec _ => "(exec)"
+        | .failed e => nomatch e
+      let dn := match r.2.2 with
+        | some (true, sm) => " (cexec" ++ rInts sm ++ ")"
+        | some (false, sm) => " (creplay" ++ rInts sm ++ ")"
+        | none => ""
+      ((U, r.1), up ++ dn)
+    | _, _, _, _ => (st, "bad-value")
   | _ => (st, "bad-op")
 
-def main : IO Unit := do driverLoop (← IO.getStdin) (([] : List Path), (⟨FS.empty, none, 0⟩ : St)) stepLine
+def main : IO Unit := do
+  driverLoop (← IO.getStdin) (([] : List Path), (⟨⟨FS.empty, none, [], 0⟩, [], 0⟩ : CSt)) stepLine
